@@ -817,6 +817,22 @@ class SStr(_SSeq):
                             'ordinal not in range(128)')
                     raise Unsupported('ascii encode errors=%s' % errors)
             return mkbytes(self._e)
+        if enc in ('latin-1', 'latin1', 'iso-8859-1', 'iso8859-1'):
+            out = []
+            for i, x in enumerate(self._e):
+                if _dec(x >= 256):
+                    if errors == 'strict':
+                        raise SUnicodeEncodeError(
+                            'latin-1', self, i, i + 1,
+                            'ordinal not in range(256)')
+                    if errors == 'replace':
+                        out.append(63)
+                        continue
+                    if errors == 'ignore':
+                        continue
+                    raise Unsupported('latin-1 encode errors=%s' % errors)
+                out.append(x)
+            return mkbytes(out)
         raise Unsupported('encode(%r) of symbolic str' % encoding)
 
     def _case_guard(self, x):
